@@ -16,6 +16,7 @@ from ..cfg import (CFG, call_name, calls_in, walk_no_nested, parents_map, guards
 from ..core import AnalysisError, Ctx, Func, norm
 from ..resolve import Resolver
 from ..util import stmts_sorted, reachable
+from ..pat import find as pfind, has as phas
 
 SPEC = {
     "explanation": (
@@ -56,6 +57,40 @@ def _is_set_type(t) -> Optional[bool]:
     return False
 
 
+ORDER_KEEPING = {"list", "tuple", "iter", "reversed", "enumerate", "zip", "chain", "deque", "map", "filter", "islice"}
+
+
+def hash_ordered(e: ast.AST, R: Resolver, f: Func, env, depth: int = 0):
+    """Element type if iterating ``e`` visits elements in hash order (a set of non-ints, possibly passed through
+    an order-keeping wrapper or a local assigned from one); None otherwise."""
+    if depth > 4:
+        return None
+    t = R.expr_type(e, f, env)
+    if _is_set_type(t):
+        return t
+    if isinstance(e, ast.Call) and isinstance(e.func, ast.Name) and e.func.id in ORDER_KEEPING and e.args:
+        for a in e.args:
+            r = hash_ordered(a, R, f, env, depth + 1)
+            if r:
+                return r
+    if isinstance(e, (ast.ListComp, ast.GeneratorExp)) and e.generators:
+        return hash_ordered(e.generators[0].iter, R, f, env, depth + 1)
+    if isinstance(e, ast.Call) and isinstance(e.func, ast.Attribute) and e.func.attr in ("copy", "union", "intersection", "difference"):
+        return hash_ordered(e.func.value, R, f, env, depth + 1)
+    if isinstance(e, ast.BinOp) and isinstance(e.op, (ast.BitOr, ast.BitAnd, ast.Sub, ast.BitXor)):
+        return hash_ordered(e.left, R, f, env, depth + 1) or hash_ordered(e.right, R, f, env, depth + 1)
+    if isinstance(e, ast.Name):
+        defs = [s_ for s_ in walk_no_nested(f.node) if isinstance(s_, ast.Assign) and len(s_.targets) == 1
+                and isinstance(s_.targets[0], ast.Name) and s_.targets[0].id == e.id]
+        for d in defs:
+            if isinstance(d.value, ast.Call) and isinstance(d.value.func, ast.Name) and d.value.func.id in ORDER_KEEPING \
+                    or isinstance(d.value, (ast.ListComp, ast.GeneratorExp)):
+                r = hash_ordered(d.value, R, f, env, depth + 1)
+                if r:
+                    return r
+    return None
+
+
 def set_iterations(ctx: Ctx, R: Resolver, funcs: List[Func]):
     """Yield (func, loop_or_comprehension, iter_expr, elem_type) for hash-ordered iterations."""
     out = []
@@ -72,8 +107,8 @@ def set_iterations(ctx: Ctx, R: Resolver, funcs: List[Func]):
             if it is None:
                 continue
             n_iter += 1
-            t = R.expr_type(it, f, env)
-            if _is_set_type(t):
+            t = hash_ordered(it, R, f, env)
+            if t:
                 # a comprehension directly consumed by an order-free reduction is harmless
                 host = n
                 if isinstance(n, ast.comprehension):
@@ -221,6 +256,59 @@ def r20_3(ctx: Ctx, R: Resolver):
     ctx.ob("R20.3", sm, sysc[0] if sysc else "System(...)", oks,
            "the reference system is loaded with the explicit species' starting topologies first, so their "
            "molecules are already claimed when candidates are tried", node=sysc[0] if sysc else sm.node)
+    # each removal is guarded by membership of the same file in the same set
+    n_rm = 0
+    pms = parents_map(sm.node)
+    for l in rem_loops:
+        for c in calls_in(l):
+            if call_name(c) in ("remove", "discard") and c.args:
+                n_rm += 1
+                st_ = norm(c.func.value)
+                x_ = norm(c.args[0])
+                g_ = [(norm(t).replace(" ", ""), pol) for t, pol in guards_of(c, pms)]
+                okg = call_name(c) == "discard" or g_ == [(("%s in %s" % (x_, st_)).replace(" ", ""), True)]
+                ctx.ob("R20.3", sm, c, okg, "a known file is removed from the candidate set it belongs to, when it is in it "
+                       "(guards: %s)" % g_, node=c)
+    # classification by extension
+    cf = ctx.func("_cli.classify_files")
+    pmc = parents_map(cf.node)
+    for c in calls_in(cf.node):
+        if call_name(c) == "add" and c.args:
+            which = norm(c.func.value)
+            g_ = [(norm(t), pol) for t, pol in guards_of(c, pmc)]
+            reg = "ParserManager.parsers" if "coord" in which else "TopologyParserManager.parsers"
+            # the extension variable: last dot-separated piece of the base name
+            exts = [b_["V_e"] for _, b_ in pfind(cf.node, "V_e = V_n.split('.')[-1]")]
+            ext = exts[0] if exts else "extension"
+            ctx.ob("R20.3", cf, c, g_ == [("%s in %s" % (ext, reg), True)],
+                   "a file is a %s candidate exactly when its extension has a registered %s parser" % (
+                       "coordinate" if "coord" in which else "topology", "coordinate" if "coord" in which else "topology"), node=c)
+    # the end topology of a species: another candidate with the same molecule name, stored once
+    for st in walk_no_nested(sm.node):
+        if isinstance(st, ast.Assign) and isinstance(st.targets[0], ast.Subscript) and isinstance(st.targets[0].slice, ast.Constant) \
+                and st.targets[0].slice.value in ("top_AA", "coor_AA"):
+            key_ = st.targets[0].slice.value
+            g_ = sorted((norm(t).replace(" ", ""), pol) for t, pol in guards_of(st, pms))
+            if key_ == "top_AA":
+                # names are read off the code (renaming locals must not matter)
+                rets_ = [r_ for r_ in walk_no_nested(sm.node) if isinstance(r_, ast.Return) and isinstance(r_.value, ast.Name)]
+                recv = rets_[0].value.id if rets_ else "added_molecues"
+                lp_ = [a_ for a_ in ancestors(st, pms) if isinstance(a_, ast.For) and isinstance(a_.target, ast.Tuple)]
+                fn_, mol_ = ([norm(e_) for e_ in lp_[0].target.elts] + ["filename", "molecule"])[:2] if lp_ else ("filename", "molecule")
+                used_ = [norm(c_.func.value) for c_ in calls_in(sm.node) if call_name(c_) == "add" and c_.args and norm(c_.args[0]) == fn_]
+                used_ = used_[0] if used_ else "used_files"
+                want = sorted([(("'top_AA' in %s[%s.name]" % (recv, mol_)).replace(" ", ""), False),
+                               (("%s not in %s and %s.name in %s" % (fn_, used_, mol_, recv)).replace(" ", ""), True)])
+                g_ = sorted((t.replace("(", "").replace(")", ""), pol) for t, pol in g_)
+                want = sorted((t.replace("(", "").replace(")", ""), pol) for t, pol in want)
+                ctx.ob("R20.3", sm, st, g_ == want,
+                       "the end topology of a species is a candidate that was not used as start topology, has the species' "
+                       "molecule name, and is taken only if none was stored yet (guards: %s)" % g_, node=st)
+            else:
+                ctx.ob("R20.3", sm, st, any(t.startswith("'coor_AA'notin") and pol for t, pol in g_)
+                       and not any(isinstance(a_, ast.Try) and st in a_.body for a_ in ancestors(st, pms)),
+                       "the end coordinates of a species are the first candidate that loads with its end topology (stored in the "
+                       "else-branch of the trial load, only while none is stored)", node=st)
     # exclusion precedes append
     loops = [n for n in walk_no_nested(main.node) if isinstance(n, ast.For)
              and any(call_name(c) == "append" for c in calls_in(n))]
@@ -240,6 +328,27 @@ def r20_3(ctx: Ctx, R: Resolver):
                 if ev[0] == "s" and isinstance(ev[1], ast.Expr) and isinstance(ev[1].value, ast.Call) \
                         and call_name(ev[1].value) == "append" and not seen_excl:
                     okx = False
+    argsv = ([b_["V_a"] for _, b_ in pfind(main.node, "V_a = V_p.parse_args()")] + ["args"])[0]
+    loopv = norm(loops[0].target) if loops else "molecule_name"
+    excl = [n_ for n_ in (walk_no_nested(loops[0]) if loops else []) if isinstance(n_, ast.If) and "exclude" in norm(n_.test)]
+    exact = bool(excl) and norm(excl[0].test).replace(" ", "").replace("(", "").replace(")", "") in (
+        ("%s.exclude is not None and %s in %s.exclude" % (argsv, loopv, argsv)).replace(" ", ""),
+        ("%s in %s.exclude and %s.exclude is not None" % (loopv, argsv, argsv)).replace(" ", "")) \
+        and isinstance(excl[0].body[-1], ast.Continue)
+    okx = okx and exact
+    # explicit species: the list starts from --mol when given
+    amc = [c for c in calls_in(main.node) if call_name(c) == "auto_map"]
+    molv = norm(amc[0].args[1]) if amc and len(amc[0].args) > 1 else "molecules"
+    mols = [n_ for n_ in walk_no_nested(main.node) if isinstance(n_, ast.If) and norm(n_.test).replace(" ", "") in
+            (("%s.mol is None" % argsv).replace(" ", ""), ("%s.mol is not None" % argsv).replace(" ", ""))]
+    okm = False
+    if mols:
+        isnone = "isnot" not in norm(mols[0].test).replace(" ", "")
+        b_none, b_given = (mols[0].body, mols[0].orelse) if isnone else (mols[0].orelse, mols[0].body)
+        okm = any(isinstance(x, ast.Assign) and norm(x.targets[0]) == molv and norm(x.value) == "[]" for x in b_none) and \
+            any(isinstance(x, ast.Assign) and norm(x.targets[0]) == molv and norm(x.value) == "%s.mol" % argsv for x in b_given)
+    ctx.ob("R20.3", main, mols[0] if mols else "explicit species", okm,
+           "the species list starts from the explicit --mol triples when given (empty otherwise)", node=mols[0] if mols else main.node)
     ctx.ob("R20.3", main, loops[0] if loops else "discovery loop", okx and npaths >= 1,
            "a discovered species reaches the mapping list only on paths where the exclusion test was evaluated "
            "and false", node=loops[0] if loops else main.node, appending_paths=npaths)
@@ -393,8 +502,10 @@ def r20_4(ctx: Ctx, R: Resolver):
            "come from element 0, the end molecule is loaded from elements (1, 2)", node=loops[0] if loops else am.node, roles=roles)
     # Manager.from_files(reference, *start topologies); end attached under the name read from the start topology
     mf = [c for c in calls_in(am.node) if call_name(c) == "from_files" and "Manager" in norm(c.func)]
-    okm = bool(mf) and norm(mf[0].args[0]) == p_ref and len(mf[0].args) == 2 and isinstance(mf[0].args[1], ast.Starred) \
-        and norm(mf[0].args[1].value) == roles.get("start_topologies_list", "itps_cg")
+    okm = bool(mf) and norm(mf[0].args[0]) == p_ref and len(mf[0].args) == 2 and isinstance(mf[0].args[1], ast.Starred)
+    if okm:
+        lst_ = norm(mf[0].args[1].value)
+        okm = bool(loops) and any(call_name(c_) == "append" and norm(c_.func.value) == lst_ for c_ in calls_in(loops[0]))
     att = [s for s in walk_no_nested(am.node) if isinstance(s, ast.Assign) and isinstance(s.targets[0], ast.Attribute)
            and s.targets[0].attr == "end"]
     oka = False
@@ -416,8 +527,9 @@ def r20_4(ctx: Ctx, R: Resolver):
         b = bind_args(cm[0], am)
         got = {k: norm(v) for k, v in b.items()}
         mols = got.get(p_species)
-        okb = got.get(p_ref) == "args.init_coor" and got.get(p_scale) == "args.scale" and got.get(p_out) == "args.outfile" \
-            and mols is not None
+        argsv = ([b_["V_a"] for _, b_ in pfind(main.node, "V_a = V_p.parse_args()")] + ["args"])[0]
+        okb = got.get(p_ref) == "%s.init_coor" % argsv and got.get(p_scale) == "%s.scale" % argsv \
+            and got.get(p_out) == "%s.outfile" % argsv and mols is not None
     ctx.ob("R20.4", main, cm[0] if cm else "auto_map call", okb,
            "main passes the reference file, the species list, --scale and --outfile to the matching parameters",
            node=cm[0] if cm else main.node, binding=got)
